@@ -8,6 +8,8 @@ import LW.Proofs.C03
 import LW.Proofs.C05Aux
 import LW.Proofs.C05Analyze
 import LW.Proofs.C05Quick
+import LW.Proofs.C05Err
+import LW.Proofs.C05ErrAnalyze
 namespace LW.Proofs.C05
 open LW
 
